@@ -161,7 +161,14 @@ class Hist:
             elif k == "h":
                 cur = self.probe()
                 before = dict(cur.handlers) if hasattr(cur, "handlers") else None
-                ok, r = self.guarded(lambda: self.call_handle(RT.handle, it[2]))
+                if len(it) > 3:
+                    # ["h", x, [], "log"|"cache"]: the library's own context managers (`labrea.logging.disabled()`,
+                    # `labrea.cache.disabled()`) are `handle({...})` calls: runtimes derived from the caller's current
+                    # runtime AT THE TIME OF THE CALL, with overrides for request types this history does not observe
+                    import labrea.logging as _LL, labrea.cache as _LC
+                    ok, r = self.guarded(_LL.disabled if it[3] == "log" else _LC.disabled)
+                else:
+                    ok, r = self.guarded(lambda: self.call_handle(RT.handle, it[2]))
                 if ok:
                     self.vars[it[1]] = r; self.keep.append(r)
                     if cur is not MISSING and r is cur:
@@ -548,8 +555,10 @@ class Gen:
             r = self.rng.random()
             if r < 0.20:
                 items.append(["r", self.rng.randrange(NTYPES)])
-            elif r < 0.30:
+            elif r < 0.27:
                 x = self.fresh(); items.append(["h", x, self.hs()]); self.bound.append(x)
+            elif r < 0.30:
+                x = self.fresh(); items.append(["h", x, [], self.rng.choice(["log", "cache"])]); self.bound.append(x)
             elif r < 0.36:
                 x = self.fresh(); items.append(["n", x, self.hs()]); self.bound.append(x)
             elif r < 0.43 and self.bound:
@@ -605,6 +614,11 @@ def corpus() -> List[Tuple[str, list]]:
             (f"nested twice, raise in the inner block, caught outside both [{w}]",
              [[t, [["g", T0, 1], ["h", 0, [[T0, 2]]], ["h", 1, [[T0, 3]]], ["p"],
                    ["Y", [["W", 0, [["r", T0], ["W", 1, [["r", T0], ["^"]]]]]]], ["p"], ["r", T0]]]]),
+            (f"the library's own context managers under two different handler contexts [{w}]",
+             [[t, [["g", T0, 1], ["h", 0, [[T0, 2]]], ["W", 0, [["h", 1, [], "log"], ["W", 1, [["r", T0]]], ["r", T0]]],
+                   ["h", 2, [[T0, 3]]], ["W", 2, [["h", 3, [], "log"], ["W", 3, [["r", T0], ["p"]]],
+                                                  ["h", 4, [], "cache"], ["W", 4, [["r", T0]]], ["r", T0]]],
+                   ["h", 5, [], "cache"], ["W", 5, [["r", T0]]], ["p"]]]]),
             (f"re-enter an active object [{w}]",
              [[t, [["c", 0], ["h", 1, [[T0, 5]]], ["W", 1, [["W", 1, [["r", T0]]], ["r", T0], ["p"]]], ["p"], ["r", T0]]]]),
             (f"re-enter the base runtime itself [{w}]",
